@@ -628,7 +628,7 @@ pub fn run(ctx: &Ctx, evidence: Option<&PathBuf>) -> i32 {
                 viol(c, "epilogue-run", format!("connection for id {id} status {status:?} did not finish"), &[]);
                 return;
             }
-            let out = world.pipe.lock().unwrap().outbox.clone();
+            let out = world.pipe.lock().unwrap_or_else(std::sync::PoisonError::into_inner).outbox.clone();
             let invs = world.log.lock().unwrap().invocations.clone();
             c.l.evaluations += 1;
             match crate::c07::check_conn(&case, &model, &out, &invs, 1, c.l) {
